@@ -248,6 +248,26 @@ func InFlightLimit(desc func() Case, limit time.Duration) func() {
 	return func() { flights.Delete(id) }
 }
 
+// memoryLimit is the heap size at which the watchdog steps in: 16 GiB, or 30%
+// of the machine's memory if that is less (but at least 12 GiB), or
+// VERIF_MEM_LIMIT_GB (the largest legitimate
+// heap of any check is about 7 GiB, in the thorough tier).
+func memoryLimit() uint64 {
+	limit := uint64(16) << 30
+	if data, err := os.ReadFile("/proc/meminfo"); err == nil {
+		var kb uint64
+		if _, err := fmt.Sscanf(string(data), "MemTotal: %d kB", &kb); err == nil && kb > 0 {
+			if l := kb << 10 / 100 * 30; l < limit {
+				limit = max(l, 12<<30) // never below 12 GiB: the thorough tier legitimately uses 7
+			}
+		}
+	}
+	if v := envInt("VERIF_MEM_LIMIT_GB", 0); v > 0 {
+		limit = uint64(v) << 30
+	}
+	return limit
+}
+
 func startWatchdog() {
 	coarseNow.Store(time.Now().UnixNano())
 	go func() {
@@ -267,6 +287,39 @@ func startWatchdog() {
 				})
 			}
 		}
+		go func() {
+			memLimit := memoryLimit()
+			for {
+				time.Sleep(200 * time.Millisecond)
+				// An operation that allocates without bound (a corrupted chain walked
+				// and copied forever) exhausts memory long before HangLimit and would
+				// kill the check instead of failing it: when the heap passes the limit,
+				// the operation that has been in flight longest (at least 2 s) is
+				// reported like a hang.
+				var ms runtime.MemStats
+				runtime.ReadMemStats(&ms)
+				if ms.HeapAlloc <= memLimit || onHang == nil {
+					continue
+				}
+				var oldest *flight
+				consider := func(f *flight) {
+					if f != nil && time.Since(f.since) > 2*time.Second && (oldest == nil || f.since.Before(oldest.since)) {
+						oldest = f
+					}
+				}
+				for i := range slots {
+					consider(slots[i].Load())
+				}
+				flights.Range(func(k, v any) bool { consider(v.(*flight)); return true })
+				if oldest != nil {
+					hangOnce.Do(func() {
+						c := oldest.desc()
+						c.Msg = fmt.Sprintf("hang: the heap grew to %d MiB while this operation was in flight for %v (unbounded allocation): %s", ms.HeapAlloc>>20, time.Since(oldest.since).Round(time.Second), c.Msg)
+						onHang(&c)
+					})
+				}
+			}
+		}()
 		for {
 			time.Sleep(time.Second)
 			coarseNow.Store(time.Now().UnixNano())
